@@ -227,7 +227,9 @@ func (s sortedConfigMaps) List(ctx context.Context, o metav1.ListOptions) (*core
 func NewBackend(kind string) *Backend {
 	b := &Backend{Kind: kind}
 	switch kind {
-	case "memory":
+	case "memory", "memory-live":
+		// "memory-live" is Helm's memory driver as it is: it keeps the caller's live objects (charts keep their
+		// subcharts, which no serialising backend records); "memory" persists copies like every real backend
 		b.Driver = driver.NewMemory()
 	case "secret":
 		b.cs = k8sfake.NewSimpleClientset()
@@ -258,7 +260,7 @@ func (b *Backend) Clone() *Backend {
 	n := NewBackend(b.Kind)
 	ctx := context.Background()
 	switch b.Kind {
-	case "memory":
+	case "memory", "memory-live":
 		for _, r := range b.All() {
 			c := CloneRelease(r)
 			_ = n.Driver.Create(fmt.Sprintf("%s.%s.v%d", storage.HelmStorageType, c.Name, c.Version), c)
